@@ -166,6 +166,32 @@ impl PointCloud {
             prototype.push(Record { name, data_type });
         }
 
+        // Scaled integer limits are read in the units of the record they belong to
+        let record_type = |name: RecordName| {
+            prototype
+                .iter()
+                .find(|r| r.name == name)
+                .map(|r| &r.data_type)
+        };
+        let intensity_limits = if let Some(node) = intensity_limits {
+            Some(IntensityLimits::from_node(
+                &node,
+                record_type(RecordName::Intensity),
+            )?)
+        } else {
+            None
+        };
+        let color_limits = if let Some(node) = color_limits {
+            Some(ColorLimits::from_node(
+                &node,
+                record_type(RecordName::ColorRed),
+                record_type(RecordName::ColorGreen),
+                record_type(RecordName::ColorBlue),
+            )?)
+        } else {
+            None
+        };
+
         Ok(Self {
             guid,
             name,
@@ -188,16 +214,8 @@ impl PointCloud {
             } else {
                 None
             },
-            intensity_limits: if let Some(node) = intensity_limits {
-                Some(IntensityLimits::from_node(&node)?)
-            } else {
-                None
-            },
-            color_limits: if let Some(node) = color_limits {
-                Some(ColorLimits::from_node(&node)?)
-            } else {
-                None
-            },
+            intensity_limits,
+            color_limits,
             transform,
             description,
             acquisition_start,
